@@ -70,6 +70,7 @@ func msgLitType(v ssa.Value) (int64, bool) {
 				if n, ok := an.ConstInt(st.Val); ok {
 					return n, true
 				}
+				return 0, false // the type is computed (`message{t: e.t, …}`): not a constant of this literal
 			}
 		}
 	}
@@ -723,6 +724,28 @@ func c11Tables(c *Ctx) {
 				}
 				if t, ok := msgLitType(call.Common().Args[1]); ok {
 					constructed[t] = c.ipos(in)
+				}
+			}
+		}
+	}
+	// message types handed on through an intermediate value (`envelope{t: dataMessageType, …}`): every constant stored into a
+	// field of type messageType by the connection's methods is a type the server sends
+	for _, fn := range c.wsMethods() {
+		for _, b := range fn.Blocks {
+			for _, in := range b.Instrs {
+				st, ok := in.(*ssa.Store)
+				if !ok {
+					continue
+				}
+				fa, ok := st.Addr.(*ssa.FieldAddr)
+				if !ok || !an.NamedIs(st.Val.Type(), pkgTransport, "messageType") {
+					continue
+				}
+				_ = fa
+				if n, ok := an.ConstInt(st.Val); ok {
+					if _, dup := constructed[n]; !dup {
+						constructed[n] = c.ipos(in)
+					}
 				}
 			}
 		}
